@@ -337,6 +337,21 @@ def wiring(ctx: Any) -> List[Ob]:
                         covered |= {e_.attr for e_ in lp.iter.elts if isinstance(e_, ast.Attribute) and e_.attr in queue_attrs}
     ok_q = (own and len(covered) >= len(queue_attrs) - 1) or covered == set(queue_attrs)
     obs.append(ob(R, rdy, f'_remove_answers_from_queue on self and on {queue_attrs}', 'what a queue sends is dropped from the groups still waiting in every outgoing queue of the instance, not only its own', ok_q, f'own queue: {own}; other queues covered: {sorted(covered)}'))
+    # ... and the same for what is multicast at once, by-passing the queues (F27): a copy of the record still parked in a queue
+    # would go out again inside the second that follows the immediate answer
+    ha = prog.func('zeroconf._handlers.query_handler.QueryHandler.handle_assembled_query')
+    hcfg = cfg_of(ha.node)
+    hme = ha.params[0]
+    now_send = [n for n in hcfg.nodes if any(call_name(c) == 'async_send' and c.args and isinstance(c.args[0], ast.Call) and call_name(c.args[0]) == 'construct_outgoing_multicast_answers' for c in n.calls())]
+    if len(now_send) != 1:
+        raise AnalysisError('anchor vanished: the immediate multicast of handle_assembled_query')
+    sent_arg = norm(next(c.args[0].args[0] for c in now_send[0].calls() if call_name(c) == 'async_send' and c.args and isinstance(c.args[0], ast.Call)))
+    purged: Set[str] = set()
+    for qa in queue_attrs:
+        pn = [n for n in hcfg.nodes if any(call_name(c) == '_remove_answers_from_queue' and isinstance(c.func, ast.Attribute) and (self_attr(c.func.value, hme) == qa or (isinstance(c.func.value, ast.Attribute) and c.func.value.attr == qa)) and c.args and norm(c.args[0]) == sent_arg for c in n.calls())]
+        if pn and hcfg.dominated_by_any(now_send[0], pn):
+            purged.add(qa)
+    obs.append(ob(R, ha, now_send[0].ast, 'what is multicast at once is first dropped from the groups waiting in every outgoing queue', purged == set(queue_attrs), f'queues purged before the immediate send: {sorted(purged)}'))
     # the while loop takes groups while due (send_after <= now)
     whiles = [n for n in walk_local_ordered(rdy.node) if isinstance(n, ast.While)]
     ok_w = False
